@@ -1049,3 +1049,138 @@ def run(ctx):
         if ans != impl:
             ctx.disagree("asf container", desc, model=ans[:300], impl=impl[:300])
     return ncases
+
+
+# ---------------------------------------------------------------- C19 / C06: the file operations of save and delete
+def run_faults(ctx):
+    """ASF.save / ASF.delete on a file object with a finite capacity (every remaining-capacity value for small growths), with
+    an IOError injected at every call index and with short reads: the real code on fobj.FaultFile against the programs
+    `saveM` / `deleteM` of lean/MutagenModel/Model/Container/AsfM.lean (`asf op=savem|deletem … cap= leak= fail= short= B=`):
+    same outcome class, same bytes left, same file position, same sequence of file-object calls; and the statements of C19 / C06
+    on the real outcome.  Returns the number of cases."""
+    import errno
+    import fobj
+    from mutagen import MutagenError, _util
+    from mutagen.asf import ASF, ASFUnicodeAttribute, ASFByteArrayAttribute
+    rng = ctx.rng
+    BUF_FUNCS = [getattr(_util, n) for n in ("resize_file", "move_bytes", "insert_bytes", "delete_bytes", "resize_bytes")]
+    saved_defaults = [f.__defaults__ for f in BUF_FUNCS]
+
+    def set_buffers(B):
+        for f, d in zip(BUF_FUNCS, saved_defaults):
+            f.__defaults__ = tuple(B if (B and x == _util._DEFAULT_BUFFER_SIZE) else x for x in d) if d else d
+
+    def attempt(data, op, pairs, pad, **faults):
+        """a fresh load of the clean bytes, then save / delete on a FaultFile -> (class, bytes left, position, call log)"""
+        a = ASF(io.BytesIO(data))
+        if op == "save":
+            a.tags[:] = pairs
+        f = fobj.FaultFile(data, **faults)
+        k, r = timed((lambda: a.save(f, padding=make_cb(pad, []))) if op == "save" else (lambda: a.delete(f)), 30)
+        cls = "ok" if k == "ok" else "hang" if k == "hang" else classify(r)
+        return cls, f.getvalue(), f.pos(), ",".join(f.log) or "-", f
+
+    n = int(os.environ.get("VERIF_ASF_FAULT_CASES", "0")) or ctx.budget(6, 60)
+    reqs = []
+    ncases = 0
+    try:
+        for i in range(n):
+            if i == 0:
+                with open(os.path.join(REPO, "tests", "data", SAMPLES[0]), "rb") as h:
+                    data, kind = h.read(), "sample"
+            else:
+                lay = gen_plain(rng)
+                data, kind = render_layout(lay["top"], lay["rest"]), "plain"
+            B = rng.choice([0, 0, 64, 257]) if len(data) < 8000 else rng.choice([0, 4096])
+            set_buffers(B)
+            op = rng.choice(["save", "save", "save", "delete"])
+            how = rng.choice(["grow-small", "grow-small", "grow-small", "grow", "grow", "same", "shrink"])
+            pad = {"grow-small": "0", "grow": rng.choice(["0", "default", "777"]), "same": "keep", "shrink": "0"}[how]
+            pairs = []
+            if op == "save":
+                pairs = gen_tags(rng, True)
+                if how == "grow-small":
+                    pairs = list(ASF(io.BytesIO(data)).tags) + [("zz", ASFUnicodeAttribute("g" * rng.choice([0, 1, 5])))]
+                elif how == "grow":
+                    pairs.append(("WM/Picture", ASFByteArrayAttribute(rbytes(rng, rng.choice([300, 1500])))))
+                elif how == "same":
+                    pairs = list(ASF(io.BytesIO(data)).tags)
+                elif how == "shrink":
+                    pairs = pairs[:1]
+            tagstr = enc_tags(pairs)
+            base = "asf op=%s data=%s%s B=%d" % ("savem" if op == "save" else "deletem", hx(data),
+                                                 " tags=%s pad=%s" % (tagstr, pad) if op == "save" else "", B or 1048576)
+            desc = dict(kind=kind, op=op, how=how, pad=pad, B=B, data=hx(data) if len(data) < 1200 else "len=%d" % len(data),
+                        tags=tagstr if len(tagstr) < 300 else "len=%d" % len(tagstr))
+            # ---- the reference run: no fault, no limit
+            cls0, out0, pos0, log0, f0 = attempt(data, op, pairs, pad)
+            reqs.append((base, "%s data=%s pos=%d log=%s" % ("ok" if cls0 == "ok" else cls0, hx(out0), pos0, log0), dict(desc, faults="none")))
+            ncases += 1
+            ctx.case(key=("asf-faults", op, how, i), nontrivial=(out0 != data), modelled=True, sample=desc if i == 1 else None)
+            if cls0 != "ok":
+                ctx.hist["asf:faults:reference:" + cls0] += 1
+                continue
+            growth = len(out0) - len(data)
+            ncalls = len(f0.log)
+            ctx.hist["asf:faults:%s:%s" % (op, "grows" if growth > 0 else "shrinks" if growth < 0 else "same-size")] += 1
+            # ---- C19: every remaining-capacity value (sampled for large growths), two leak values
+            if growth > 0:
+                rs = list(range(growth + 1)) if growth <= 40 else sorted(set([0, 1, 2, growth // 2, growth - 1, growth, growth + 1] +
+                                                                          [rng.randrange(growth) for _ in range(6)]))
+                for r in rs:
+                    for leak in (0, 3):
+                        cls, after, pos, log, _ = attempt(data, op, pairs, pad, cap=len(data) + r, leak=leak)
+                        case = dict(desc, cap=len(data) + r, room=r, growth=growth, leak=leak)
+                        ncases += 1
+                        ctx.hist["asf:faults:cap:" + cls] += 1
+                        reqs.append(("%s cap=%d leak=%d" % (base, len(data) + r, leak), "%s data=%s pos=%d log=%s" % (cls, hx(after), pos, log), case))
+                        if r >= growth:
+                            if cls != "ok" or after != out0:
+                                ctx.violation("asf:%s:enospc:fails-with-enough-space" % op, "the growth fits, but the call %s" % (
+                                    "raised " + cls if cls != "ok" else "left a different file"), case)
+                        elif cls == "ok":
+                            ctx.violation("asf:%s:enospc:returns-normally-on-full-device" % op, "returned normally although the device is full", case)
+                        else:
+                            if cls != "err mutagen":
+                                ctx.violation("asf:%s:enospc:raises" % op, "ENOSPC surfaced as %s" % cls, case)
+                            if after != data:
+                                ctx.violation("asf:%s:enospc:file-modified" % op, "the file changed although the call failed (%d -> %d bytes)" % (
+                                    len(data), len(after)), case)
+            # ---- C06: an IOError at every call (sampled when there are many), short reads at the reads
+            idx = list(range(ncalls)) if ncalls <= 45 else sorted(set(list(range(12)) + [ncalls - 1, ncalls - 2] + [rng.randrange(ncalls) for _ in range(20)]))
+            for j in idx:
+                cls, after, pos, log, _ = attempt(data, op, pairs, pad, fail_at=j, errno_=errno.EIO)
+                case = dict(desc, fail_at=j, call=f0.log[j])
+                ncases += 1
+                ctx.hist["asf:faults:fail:" + cls] += 1
+                reqs.append(("%s fail=%d:io" % (base, j), "%s data=%s pos=%d log=%s" % (cls, hx(after), pos, log), case))
+                if cls == "ok":
+                    ctx.violation("asf:%s:fault:swallowed" % op, "an IOError at call %d (%s) was swallowed" % (j, f0.log[j]), case)
+                elif cls not in ("err mutagen", "err value"):
+                    ctx.violation("asf:%s:fault:escape" % op, "an IOError at call %d (%s) surfaced as %s" % (j, f0.log[j], cls), case)
+            reads = [j for j, c in enumerate(f0.log) if c.startswith("r") and c != "r0"]
+            for j in (reads if len(reads) <= 12 else reads[:4] + rng.sample(reads[4:], 8)):
+                for kshort in (0, 7):
+                    cls, after, pos, log, _ = attempt(data, op, pairs, pad, short=(j, kshort))
+                    case = dict(desc, short_at=j, short_to=kshort, call=f0.log[j])
+                    ncases += 1
+                    ctx.hist["asf:faults:short:" + cls] += 1
+                    reqs.append(("%s short=%d:%d" % (base, j, kshort), "%s data=%s pos=%d log=%s" % (cls, hx(after), pos, log), case))
+                    if cls == "ok" and after != out0:
+                        ctx.violation("asf:%s:short-read:incomplete" % op, "returned normally after a short read with a file that is not the complete new state", case)
+                    elif cls not in ("ok", "err mutagen", "err value"):
+                        ctx.violation("asf:%s:short-read:escape" % op, "a short read at call %d surfaced as %s" % (j, cls), case)
+    finally:
+        set_buffers(0)
+    answers = ask_model(ctx, [r[0] for r in reqs]) if reqs else None
+    if answers is None:
+        ctx.notes.append("asf_tie.run_faults: model driver unavailable, tie skipped")
+        return ncases
+    if any(x == "bad-op" for x in answers):
+        ctx.notes.append("asf_tie.run_faults: the driver does not know `asf op=savem`; tie skipped")
+        return ncases
+    for (line, impl, desc), ans in zip(reqs, answers):
+        ctx.traces_validated += 1
+        if ans != impl:
+            ctx.disagree("asf save/delete on the file object", desc, model=ans[:300] + " … " + ans[-120:], impl=impl[:300] + " … " + impl[-120:])
+    return ncases
